@@ -204,8 +204,10 @@ def step(columnfile, cf, r, log):
     snap, groups = snapshot(cf)
     ops = ["addcolumn", "setitem", "setattr", "filter", "reorder", "copy", "copyrows", "bigarray", "inplace"]
     if titles:
-        ops += ["setcolumn", "sortby", "removerows", "filter", "reorder", "sortby"]
+        ops += ["setcolumn", "sortby", "removerows", "filter", "reorder", "sortby", "wrong-length"]
     op = ops[int(r.integers(0, len(ops)))]
+    if titles and n == 0 and r.random() < 0.15:
+        op = "wrong-length"          # an emptied table (all rows filtered away) is where a length test is easiest to lose
     if not titles and op in ("filter", "reorder", "copy", "copyrows", "bigarray", "inplace", "setattr"):
         op = "addcolumn"
 
@@ -215,6 +217,30 @@ def step(columnfile, cf, r, log):
         free = [p for p in POOL if p not in titles]
         return free[int(r.integers(0, len(free)))] if free else None
 
+    if op == "wrong-length":
+        # a column of another length offered to a table that has columns: refused, or at least the table stays
+        # rectangular; a refusal leaves every column as it was
+        existing = r.random() < 0.5
+        name = pick(existing) or pick(True)
+        m = n + int(r.integers(1, 4)) if (n == 0 or r.random() < 0.6) else int(r.integers(0, n))
+        how = ["addcolumn", "setitem", "setcolumn"][int(r.integers(0, 3 if name in titles else 2))]
+        log.append("%s(%s, %d values for %d rows)" % (how, name, m, n))
+        where = " -> ".join(log[-6:])
+        bad = np.arange(m, dtype=float) + 0.5
+        try:
+            if how == "addcolumn":
+                cf.addcolumn(bad, name)
+            elif how == "setitem":
+                cf[name] = bad
+            else:
+                cf.setcolumn(bad, name)
+            accepted = True
+        except Exception:
+            accepted = False
+        rectangular(cf, where)
+        if not accepted:
+            check_rows(cf, snap, slice(None), where + " (after the refused write)")
+        return cf, "wrong-length:" + ("accepted" if accepted else "refused") + (":empty-table" if n == 0 else "")
     if op in ("addcolumn", "setitem", "setcolumn", "setattr"):
         existing = bool(titles) and (op in ("setcolumn", "setattr") or r.random() < 0.5)
         name = pick(existing)
